@@ -11,7 +11,7 @@ import itertools
 import re
 
 from . import shape
-from .absint import FALSE, TRUE, UNIT, Agg, CallThen, Conc, Obj, Ref, Top, Undecided
+from .absint import FALSE, TRUE, UNIT, Agg, CallThen, Conc, FnItem, Obj, Ref, Top, Undecided
 from .summ import AVec, ret_ty
 
 
@@ -57,6 +57,11 @@ def exact_index(entries):
 
 KEYS = ("k", "m")
 VALS = (1, 2)
+# two abstract keys on which code-point order and UTF-16 code-unit order disagree: "\u{e000}" and "\u{10000}"
+# (code points: E000 < 10000; UTF-16: D800 DC00 < E000)
+UKEYS = ("e000", "10000")
+CP_RANK = {"k": 0, "m": 1, "z": 2, "e000": 3, "10000": 4}
+U16_RANK = {"k": 0, "m": 1, "z": 2, "10000": 3, "e000": 4}
 
 
 class World:
@@ -241,7 +246,8 @@ class World:
             return Agg(rt, 0 if x < y else (1 if x == y else 2), ())
 
         def key_cmp(it, st, c, a):
-            return ordering(it, c, W.key_of(st, a[0]), W.key_of(st, a[1]))
+            # String / str ordering is code-point order
+            return ordering(it, c, CP_RANK[W.key_of(st, a[0])], CP_RANK[W.key_of(st, a[1])])
 
         sh.cut(r"^<smallstr::string::SmallString<\[u8; 16\]> as std::cmp::Ord>::cmp$", "key_cmp", ret=key_cmp)
 
@@ -252,6 +258,29 @@ class World:
             return ordering(it, c, x.tag[1], y.tag[1])
 
         sh.cut(r"^<json_syntax::Value as std::cmp::Ord>::cmp$", "val_cmp", ret=val_cmp)
+        sh.cut(r"^<str as std::cmp::Ord>::cmp$|^core::str::traits::<impl std::cmp::Ord for str>::cmp$", "str_cmp", ret=key_cmp)
+
+        # canonicalisation: nested values are abstract (their own canonicalisation is another rule's business, the call is
+        # recorded); a key's UTF-16 form is compared in UTF-16 code-unit order
+        def val_canon(it, st, c, a):
+            st.emit("canon", shape.deref(it, st, a[0], 3))
+            return UNIT
+
+        sh.cut(r"^json_syntax::Value::canonicalize_with$", "val_canon", ret=val_canon)
+        sh.cut(r"^<smallstr::string::SmallString<\[u8; 16\]> as std::ops::Deref>::deref$|^smallstr::string::SmallString::<\[u8; 16\]>::as_str$", "key_deref", ret=lambda it, st, c, a: a[0])
+
+        def utf16(it, st, c, a):
+            return Top(shape.ret_ty(it, c), ("utf16", W.key_of(st, a[0])))
+
+        sh.cut(r"^core::str::<impl str>::encode_utf16$", "encode_utf16", ret=utf16)
+
+        def utf16_cmp(it, st, c, a):
+            x, y = (shape.deref(it, st, v, 3) for v in a[:2])
+            if not all(isinstance(v, Top) and isinstance(v.tag, tuple) and v.tag[0] == "utf16" for v in (x, y)):
+                raise Undecided("Iterator::cmp over something that is not a key's UTF-16 form: %r ~ %r" % (x, y))
+            return ordering(it, c, U16_RANK[x.tag[1]], U16_RANK[y.tag[1]])
+
+        sh.cut(r"^<std::str::EncodeUtf16<'_> as std::iter::Iterator>::cmp::<", "utf16_cmp", ret=utf16_cmp)
 
         # `slice.sort_by(cmp)`: a stable insertion sort that calls the interpreted comparator
         def sort_by(it, st, inst, args, call):
@@ -266,6 +295,8 @@ class World:
             body = None
             if bodies:
                 body = bodies[0]
+            elif isinstance(args[1], FnItem) and args[1].inst is not None:
+                body = args[1].inst  # a named function used as comparator
             else:
                 # the comparator is passed down to the sorting routine: find the closure type among the generic arguments
                 for a_ in inst.get("args", []):
@@ -300,6 +331,8 @@ class World:
                             return loop(it2, st2, i, j - 1)
                         return loop(it2, st2, i + 1, i + 1)
 
+                    if isinstance(args[1], FnItem):
+                        return CallThen(body, [x, y], then)
                     return CallThen(body, [Ref(("H", fcell.id), ()), x, y], then)
 
             return loop(it, st, 1, 1)
